@@ -66,6 +66,10 @@ def gen_cases(tier):
         yield {"kind": "corpus", "file": os.path.relpath(f, common.REPO)}
     for depth in range(1, 9):
         yield {"kind": "nest", "depth": depth}
+    # tables whose cells are very long or very short, column by column (every width around common clamps 32/64/80/128)
+    for col in ("start", "size", "type", "name", "abbrev", "attr", "doc", "enum_name", "enum_value"):
+        yield {"kind": "wide", "column": col}
+    yield {"kind": "selfcheck"}
     yield {"kind": "cli"}
 
 
@@ -191,6 +195,55 @@ def nested(depth):
     for d in range(depth - 1, 0, -1):
         lines.append("  " * d + "0 [+2]  %s  f%d" % (names[d], d))
     return "\n".join(lines) + "\n"
+
+
+def wide_tables(column, L):
+    """Field / enum tables in which one column holds a cell of exactly L characters (others short), in the first, a
+    middle and the last row, so that both the clamping of the column and its neighbours' alignment are exercised."""
+    def name(prefix, n, camel=False):
+        body = (("Ab" if camel else "ab") * (n // 2 + 1))[:max(n - len(prefix), 0)]
+        return (prefix + body)[:n] if n >= len(prefix) else prefix[:max(n, 1)]
+    out = []
+    for where in (0, 1, 2):
+        rows = []
+        types = ""
+        for i in range(3):
+            start, size, typ, nm, abbr, attr, doc = str(i), "1", "UInt", "f%d" % i, "", "", ""
+            if i == where:
+                if column == "start":
+                    start = "+".join(["%d" % i] + ["0"] * max((L - 1) // 2, 0))[:max(L, 1)].rstrip("+") or "0"
+                elif column == "size":
+                    size = ("1" + "*1" * (L // 2))[:max(L, 1)].rstrip("*") or "1"
+                elif column == "type":
+                    tn = name("T", max(L, 2), camel=True)
+                    if not tn[-1].isalpha():
+                        tn = tn[:-1] + "b"
+                    types = "struct %s:\n  0 [+1]  UInt  v\n" % tn
+                    typ = tn
+                elif column == "name":
+                    nm = name("n", max(L, 2))
+                elif column == "abbrev":
+                    nm, abbr = "longname%d" % i, " (%s)" % name("a", max(L, 2))
+                elif column == "attr":
+                    attr = "  [requires: this < %s]" % ("1" + "0" * max(L - 1, 0))[:max(L, 1)]
+                elif column == "doc":
+                    doc = "  -- " + "d" * L
+            rows.append("  %s [+%s]  %s  %s%s%s%s" % (start, size, typ, nm, abbr, attr, doc))
+        text = types + "struct Foo:\n" + "\n".join(rows) + "\n"
+        if column in ("enum_name", "enum_value"):
+            vals = []
+            for i in range(3):
+                en, ev = "V%d" % i + "A", str(i)
+                if i == where:
+                    if column == "enum_name":
+                        en = ("W" + "AB" * L)[:max(L, 2)]
+                    else:
+                        ev = ("1" + "0" * L)[:max(min(L, 18), 1)] if L <= 18 else "+".join(["1"] * ((L + 1) // 2))
+                vals.append("  %s = %s" % (en, ev))
+            text = "enum Ee:\n" + "\n".join(vals) + "\n"
+        out.append(text)
+        out.append(text.replace("\n  ", "\n  # c\n  ", 1) + "  # trailing comment\n" if column != "doc" else text)
+    return out
 
 
 def dress(text, how):
@@ -337,6 +390,39 @@ def check_case(case):
             v["subcase"] = {"kind": "text", "text": t, "indents": list(range(1, 9))}
             viol.append(v)
         nt.append("nested/%d" % case["depth"])
+    elif k == "wide":
+        for L in (1, 2, 31, 32, 33, 63, 64, 65, 66, 67, 79, 80, 81, 100, 127, 128, 129, 200):
+            for t in wide_tables(case["column"], L):
+                n += 1
+                v, ch = check_text(t, (1, 2, 8), "wide/%s/%d" % (case["column"], L))
+                if v:
+                    v["detail"] = {"text": t}
+                    v["subcase"] = {"kind": "text", "text": t, "indents": [1, 2, 8]}
+                    viol.append(v)
+                nt.append("wide/%s/%d" % (case["column"], L))
+    elif k == "selfcheck":
+        # the built-in self-check must tell apart texts whose token streams differ, including in length
+        e = common.emb()
+        base = "-- doc\nstruct Foo:\n  0 [+1]  UInt  x\n  1 [+1]  UInt  y  # c\n"
+        toks = base.split("\n")
+        variants = [("", False), (base, True), (base + "\n\n", True), (base.replace("  ", "      "), True)]
+        for i in range(len(toks)):
+            variants.append(("\n".join(toks[:i]) + "\n", i >= len(toks) - 1))
+            variants.append((base + "\n".join(toks[:i]) + "\n", i == 0))
+        variants.append((base.replace("UInt  y", "UInt  z"), False))
+        variants.append((base.replace("[+1]  UInt  y", "[+2]  UInt  y"), False))
+        for other, same in variants:
+            for a, b in ((other, base), (base, other)):
+                n += 1
+                try:
+                    r = e.format_emb.sanity_check_format_result(a, b)
+                except Exception as ex:  # noqa
+                    viol.append({"key": "self-check-" + common.exc_key(ex), "msg": "sanity_check_format_result(%r, %r): %r" % (a[:40], b[:40], ex)})
+                    continue
+                if bool(r) == same:
+                    viol.append({"key": "self-check-wrong", "msg": "sanity_check_format_result(%r..., %r...) -> %r, texts %s" % (
+                        a[:50], b[:50], r, "are equivalent" if same else "differ")})
+                nt.append("selfcheck-%d" % n)
     elif k == "corpus":
         t = open(os.path.join(common.REPO, case["file"]), encoding="utf-8").read()
         n += 1
